@@ -424,6 +424,8 @@ type corpusShape struct {
 	repeat   bool // documents may carry the same token 2-3 times
 	rich     bool // longer values, numbers and number-like text among the values; the full leaf language in queries
 	pool     []string // values present in the corpus (filled after generation), so that patterns and ranges hit
+	numSpan  int      // numbers are drawn from [-20, numSpan-20)
+	richLen  int      // longest text value of a rich corpus
 }
 
 var numRe = regexp.MustCompile(`^[+-]?[0-9]{1,15}$`)
@@ -440,15 +442,15 @@ func richValue(r *rng.R, sh corpusShape) string {
 	var v string
 	switch r.Intn(6) {
 	case 0:
-		v = fmt.Sprint(r.Range(0, 150) - 20)
+		v = fmt.Sprint(r.Intn(max(1, sh.numSpan)) - 20)
 	case 1:
 		v = rng.Pick(r, []string{"007", "0", "-0", "10", "9", "100", "-3", "12", "7"})
 	case 2:
-		v = randValue(r, "abc", 2) + fmt.Sprint(r.Intn(20)) // x7-like: not a number
+		v = randValue(r, "abc", 2) + fmt.Sprint(r.Intn(10)) // x7-like: not a number
 	case 3:
-		v = randValue(r, sh.alphabet+"-", 4)
+		v = randValue(r, sh.alphabet+"-", max(1, sh.richLen))
 	default:
-		v = randValue(r, sh.alphabet, 4)
+		v = randValue(r, sh.alphabet, max(1, sh.richLen))
 	}
 	if !numAgrees(v) {
 		return "a"
@@ -1485,7 +1487,7 @@ func main() {
 		big := i >= nCorpus
 		switch {
 		case big:
-			sh.n = r.Range(300, 1500)
+			sh.n = r.Range(300, 900)
 			if *tier == "thorough" {
 				sh.n = r.Range(1000, 3000)
 			}
@@ -1518,6 +1520,10 @@ func main() {
 		}
 		mode := rng.Pick(r, modes)
 		sh.rich = r.Chance(2, 3)
+		sh.numSpan, sh.richLen = 150, 4
+		if big {
+			sh.numSpan, sh.richLen = 50, 3 // a dictionary of a few hundred tokens: the model's cost is |dictionary| x |corpus|
+		}
 		lidCap, ipb := 0, 1
 		if !big && i%4 == 3 {
 			// the sealed LID path over blocks of a SMALL capacity (real generator, Pack/unpack, Table, iterators)
